@@ -15,7 +15,15 @@
 (*                      numeral or an `approx.` numeral (or both)          *)
 (*       v  : optional, the value when it is not p/q (query legs)]]        *)
 (*                                                                         *)
-(* Lines are independent.  REJECT l c : check c of line l fails.           *)
+(* Lines are independent.  REJECT l c why : check c of line l fails;       *)
+(*   why = "exact-wrong"     marked exact but does not denote the value    *)
+(*         "approx-wrong"    marked approximate / shown behind `approx.`   *)
+(*                           but not the value truncated toward zero       *)
+(*                           within one unit of the last digit             *)
+(*         "approx-on-exact" shown behind `approx.` although exact         *)
+(*         "period"          stated period is not the length of the block  *)
+(*         "no-numeral"      neither an exact nor an approximate numeral   *)
+(* (short words: TLC wraps long printed tuples over several lines)         *)
 (* UNSUPPORTED l c : the numeral is outside the grammar of Numeral.tla.    *)
 (* CRASH l : the formatter panicked or hung.                               *)
 (***************************************************************************)
@@ -30,17 +38,17 @@ AllReadings(ck) == UNION {Readings(ck.t, ck.bs[j]) : j \in DOMAIN ck.bs}
 
 CheckOne(ck, v0, i, c) ==
   IF ck.r = "present"
-  THEN (IF ck.e \/ ck.a THEN TRUE ELSE PrintT(<<"REJECT", i, c, "neither an exact nor an approximate numeral">>))
+  THEN (IF ck.e \/ ck.a THEN TRUE ELSE PrintT(<<"REJECT", i, c, "no-numeral">>))
   ELSE \E rs \in {AllReadings(ck)}, v \in {IF "v" \in DOMAIN ck THEN ck.v ELSE v0} :
        IF rs = {} THEN PrintT(<<"UNSUPPORTED", i, c>>)
-       ELSE IF ~PeriodIn(rs) THEN PrintT(<<"REJECT", i, c, "stated period is not the length of the block">>)
+       ELSE IF ~PeriodIn(rs) THEN PrintT(<<"REJECT", i, c, "period">>)
        ELSE CASE ck.r = "exact" ->
-                   IF ExactIn(rs, v) THEN TRUE ELSE PrintT(<<"REJECT", i, c, "marked exact but does not denote the value">>)
+                   IF ExactIn(rs, v) THEN TRUE ELSE PrintT(<<"REJECT", i, c, "exact-wrong">>)
               [] ck.r = "approx" ->
-                   IF ApproxIn(rs, v) THEN TRUE ELSE PrintT(<<"REJECT", i, c, "marked approximate but is not the value truncated toward zero within one last-digit unit">>)
+                   IF ApproxIn(rs, v) THEN TRUE ELSE PrintT(<<"REJECT", i, c, "approx-wrong">>)
               [] ck.r = "strict" ->
-                   IF ~ApproxIn(rs, v) THEN PrintT(<<"REJECT", i, c, "shown as approx. but is not the value truncated toward zero within one last-digit unit">>)
-                   ELSE IF ~StrictIn(rs, v) THEN PrintT(<<"REJECT", i, c, "shown as approx. although the numeral is exact">>)
+                   IF ~ApproxIn(rs, v) THEN PrintT(<<"REJECT", i, c, "approx-wrong">>)
+                   ELSE IF ~StrictIn(rs, v) THEN PrintT(<<"REJECT", i, c, "approx-on-exact">>)
                    ELSE TRUE
 
 Verdict(ev, i) ==
